@@ -730,7 +730,7 @@ func init() {
 		Assumptions: []string{"a column removed by one branch and untouched by the others disappears; remove-vs-unchanged resolves to removal; remove-vs-modified and different changes to one cell are conflicts (the repository's own conventions)", "conflicted keys are discarded the way `wrgl merge --no-gui` does", "3 keys, 2 value columns, one column operation per branch, N <= 3"},
 		Harnesses: []*mc.Harness{
 			{Name: "two-branches", Variant: "b3", Body: c05Body(2, false), DevBound: map[string]int{"quick": 2, "thorough": 5}, Budget: map[string]time.Duration{"quick": 75 * time.Second, "thorough": 14 * time.Minute}},
-			{Name: "two-branches-shapes", Variant: "b3", Body: c05Body(2, true), DevBound: map[string]int{"quick": 2, "thorough": 3}, Budget: map[string]time.Duration{"quick": 60 * time.Second, "thorough": 10 * time.Minute}},
+			{Name: "two-branches-shapes", Variant: "b3", Body: c05Body(2, true), DevBound: map[string]int{"quick": 2, "thorough": 3}, Budget: map[string]time.Duration{"quick": 150 * time.Second, "thorough": 10 * time.Minute}},
 			{Name: "three-branches", Variant: "b3", Body: c05Body(3, false), DevBound: map[string]int{"quick": 3, "thorough": 4}, Budget: map[string]time.Duration{"quick": 100 * time.Second, "thorough": 14 * time.Minute}},
 		},
 	})
